@@ -299,9 +299,21 @@ func (o *optimizer) etaReduction() {
 			return false
 		}
 
-		if !generatedIter {
+		if generatedIter {
+			// func() bool { return ɪʇ.MoveNext() } is generated by rewriter, identical type by construction,
+			// don't depend on the type info, which may be incomplete when reloading a partial package
+			// (otherwise the output of the first and the second run of go:generate may differ)
+			return true
+		}
+		{
 			fn, ok := ctx.ObjectOf(id).(*types.Func)
 			if !ok {
+				return false
+			}
+			// only the thunks generated by rewriter are reduced, e.g. func() Seq[T] { return seq.Normal[T]() },
+			// closures of user calling their own funcs are left untouched: whether such a callee
+			// type checks depends on which generated files already exist
+			if fn.Pkg() == nil || fn.Pkg().Path() != pkgSeqPath {
 				return false
 			}
 			sig, ok := fn.Type().(*types.Signature)
